@@ -226,6 +226,7 @@ func run(r *core.Run) {
 	}
 	timed("quasi", runQuasi)
 	timed("macro", runMacro)
+	timed("reentrancy", runReentrancy)
 	timed("gensym", runGensym)
 	r.Extra("cpu_seconds_by_part", cpu)
 	if os.Getenv("C07_TIMING") != "" {
